@@ -14,6 +14,11 @@ import (
 	"encoding"
 	"encoding/json"
 	"fmt"
+	"go/ast"
+	"go/parser"
+	"go/token"
+	"os"
+	"path/filepath"
 	"reflect"
 	"sort"
 	"strings"
@@ -144,6 +149,48 @@ func c18LeafKinds(t reflect.Type, into map[string]int) {
 	}
 }
 
+// c18CustomJSONMethods enumerates, from the SOURCES (go/ast over every non-test file of the tree), every
+// method named MarshalJSON / UnmarshalJSON / MarshalText / UnmarshalText: "pkg.Type.Method". Reflection
+// (c18SchemaWalk) finds the types of the schema that implement the interfaces; this list says which methods
+// are DECLARED and for which types, so that "modelled or listed" is checked against the source as well.
+func c18CustomJSONMethods() ([][3]string, error) {
+	var out [][3]string
+	fset := token.NewFileSet()
+	err := filepath.Walk(RepoDir(), func(path string, info os.FileInfo, err error) error {
+		if err != nil {
+			return err
+		}
+		if info.IsDir() {
+			if n := info.Name(); n == ".git" || n == "mocks" || n == "vendor" {
+				return filepath.SkipDir
+			}
+			return nil
+		}
+		if !strings.HasSuffix(path, ".go") || strings.HasSuffix(path, "_test.go") {
+			return nil
+		}
+		af, err := parser.ParseFile(fset, path, nil, 0)
+		if err != nil {
+			return err
+		}
+		for _, d := range af.Decls {
+			fd, ok := d.(*ast.FuncDecl)
+			if !ok || fd.Recv == nil {
+				continue
+			}
+			switch fd.Name.Name {
+			case "MarshalJSON", "UnmarshalJSON", "MarshalText", "UnmarshalText":
+				out = append(out, [3]string{af.Name.Name, recvTypeName(fd), fd.Name.Name})
+			}
+		}
+		return nil
+	})
+	sort.Slice(out, func(i, j int) bool {
+		return out[i][0]+"."+out[i][1]+"."+out[i][2] < out[j][0]+"."+out[j][1]+"."+out[j][2]
+	})
+	return out, err
+}
+
 func genSchema(outDir string) (string, error) {
 	w := &c18SchemaWalk{state: map[reflect.Type]int{}, seen: map[reflect.Type]bool{}, custom: map[string]bool{}}
 	w.visit(reflect.TypeOf(model.Datagram{}), "Datagram")
@@ -194,6 +241,29 @@ func genSchema(outDir string) (string, error) {
 	b.WriteString("]\n\n")
 	b.WriteString("/-- types with their own (Un)MarshalJSON / (Un)MarshalText -/\n")
 	b.WriteString("def schemaCustom : List String := [" + c18JoinLeanStr(custom) + "]\n\n")
+	methods, err := c18CustomJSONMethods()
+	if err != nil {
+		return "", err
+	}
+	reach := map[string]bool{}
+	for t := range w.seen {
+		if t.Name() != "" && t.PkgPath() == reflect.TypeOf(model.Datagram{}).PkgPath() {
+			reach[t.Name()] = true
+		}
+	}
+	var inSchema, elsewhere []string
+	for _, m := range methods {
+		if m[0] == "model" && reach[m[1]] {
+			inSchema = append(inSchema, "("+c18LeanStr(m[1])+", "+c18LeanStr(m[2])+")")
+		} else {
+			elsewhere = append(elsewhere, m[0]+"."+m[1]+"."+m[2])
+		}
+	}
+	b.WriteString("/-- (Un)MarshalJSON / (Un)MarshalText methods DECLARED in the sources (go/ast, every non-test file) for a type\n")
+	b.WriteString("    reachable from `model.Datagram`, as (type, method), sorted -/\n")
+	b.WriteString("def schemaCustomMethods : List (String × String) := [" + strings.Join(inSchema, ", ") + "]\n\n")
+	b.WriteString("/-- the same methods declared for types that are not part of the wire schema (information) -/\n")
+	b.WriteString("def otherCustomMethods : List String := [" + c18JoinLeanStr(elsewhere) + "]\n\n")
 	b.WriteString("/-- everything found outside the fragment the schema-directed model covers (must be empty) -/\n")
 	b.WriteString("def schemaOdd : List String := [" + c18JoinLeanStr(w.odd) + "]\n\n")
 	b.WriteString("/-- pointer / slice fields without `omitempty` (they encode as `null`; covered by the model) -/\n")
